@@ -21,7 +21,7 @@ try:
         print(name, p, 'exit', r.returncode, lines[:2])
         if r.returncode not in (0, 1):
             print(r.stdout[-1500:])
-        for l in lines[:1]:
+        for l in [x for x in lines if 'replay=' in x][:1]:
             rp = l.split('replay=')[1].split()[0]
             try:
                 ex = json.load(open(os.path.join('/verif', rp)))
